@@ -74,4 +74,25 @@ def history (s : State) (u : Bytes) : HistoryParams → List Ver
   | .complete => (s.table.get u).reverse
   | .mostRecent n => (s.table.get u).reverse.take n
 
+/-- tombstone cut-offs per label: values of epochs `≤ cut` have been replaced by tombstones -/
+abbrev Cuts := List (Bytes × Nat)
+
+def Cuts.get (c : Cuts) (u : Bytes) : Option Nat :=
+  (c.filter (fun x => x.1 = u)).foldl (fun acc x => match acc with
+    | none => some x.2 | some a => some (max a x.2)) none
+
+def tombstoned (cut : Option Nat) (v : Ver) : Bool :=
+  match cut with
+  | some c => decide (v.epoch ≤ c) && v.value ≠ []
+  | none => false
+
+/-- what history verification must yield after tombstoning (C20): with missing values allowed, the
+same versions and epochs with tombstoned values empty; without, rejection iff the requested range
+contains a tombstoned entry -/
+def historyTomb (s : State) (cuts : Cuts) (u : Bytes) (p : HistoryParams) (allow : Bool) : Option (List Ver) :=
+  let vs := history s u p
+  let cut := cuts.get u
+  if allow then some (vs.map fun v => if tombstoned cut v then { v with value := [] } else v)
+  else if vs.any (tombstoned cut) then none else some vs
+
 end Akd.Spec
